@@ -852,6 +852,8 @@ class SymEval:
                         'flatten': lambda *a, **k: base.flatten(*a, **k), 'astype': lambda *a, **k: base, 'prod': lambda: sp.Mul(*base.flat)}[attr]
             if attr == 'ravel':
                 return lambda *a, **k: base.ravel(*a, **k)
+            if attr == 'round':
+                return lambda *a, **k: base      # exact arithmetic: rounding to a number of decimals is the identity on the model values
             if attr == 'mean':
                 return lambda axis=None, **k: (np.sum(base, axis=axis) / (S(base.size) if axis is None else S(base.shape[axis])))
             if attr == 'swapaxes':
